@@ -3,7 +3,7 @@ import coregen
 from coregen import gen_case, nontrivial as _nt, c_case, shrink_candidates
 
 ID = 'C01'
-GEN_MODULES = ['Ident', 'Classes']
+GEN_MODULES = ['Ident', 'Classes', 'Flags']
 MODEL_TARGETS = ['coq/C01/Run.vo']
 PROOF_TARGETS = ['coq/C01/Proofs.vo']
 PROPS_FILE = 'coq/Props/C01.v'
